@@ -61,10 +61,15 @@ def quote(s: str, rng, style=None) -> str:
 class R:
     """Rendering context: one PRNG, a switch for blank space and for canonical (bracket-only) form."""
 
-    def __init__(self, rng, blanks=True, canonical=False):
+    DEFAULT_TOK = {"root": "$", "self": "@", "key": "#", "ctx": "_", "keys": "~", "fake": "^", "union": "|", "inter": "&"}
+
+    def __init__(self, rng, blanks=True, canonical=False, tok=None):
         self.rng = rng
         self.blanks = blanks
         self.canonical = canonical
+        self.tok = dict(self.DEFAULT_TOK)
+        if tok:
+            self.tok.update(tok)
 
     def s(self):
         if self.canonical or not self.blanks or self.rng.random() < 0.6:
@@ -92,7 +97,7 @@ def render_sel(sel, r: R) -> str:
     if k == "wild":
         return "*"
     if k == "keys":
-        return "~"
+        return r.tok["keys"]
     if k == "filter":
         return "?" + r.s() + render_expr(sel["e"], r, 0)
     raise ValueError(k)
@@ -113,6 +118,8 @@ def render_segs(segs, r: R, in_filter=False) -> str:
             out.append(lead + ("" if prev_desc else ".") + one["v"])
         elif one and one["s"] == "wild" and not r.canonical and r.rng.random() < 0.6:
             out.append(lead + ("" if prev_desc else ".") + "*")
+        elif one and one["s"] == "keys" and not r.canonical and r.rng.random() < 0.5:
+            out.append(lead + ("" if prev_desc else ".") + r.tok["keys"])
         else:
             inner = (r.s() + "," + r.s()).join(render_sel(s, r) for s in sels)
             out.append(lead + "[" + r.s() + inner + r.s() + "]")
@@ -133,7 +140,8 @@ def render_expr(e, r: R, parent_prec: int) -> str:
             return "(" + r.s() + txt + r.s() + ")"
         return txt
     if t == "infix":
-        txt = render_expr(e["l"], r, 4) + r.sp() + e["op"] + r.sp() + render_expr(e["r"], r, 4)
+        sep = " " if e["op"] in ("in", "contains") else r.sp()
+        txt = render_expr(e["l"], r, 4) + sep + e["op"] + sep + render_expr(e["r"], r, 4)
         if parent_prec > 3 or (not r.canonical and r.rng.random() < 0.15):
             return "(" + r.s() + txt + r.s() + ")"
         return txt
@@ -143,13 +151,13 @@ def render_expr(e, r: R, parent_prec: int) -> str:
             return "!" + r.s() + render_expr(inner, r, 4)
         return "!" + r.s() + "(" + r.s() + render_expr(inner, r, 0) + r.s() + ")"
     if t == "self":
-        return "@" + render_segs(e["q"], r, in_filter=True)
+        return r.tok["self"] + render_segs(e["q"], r, in_filter=True)
     if t == "root":
-        return ("^" if e.get("fake") else "$") + render_segs(e["q"], r, in_filter=True)
+        return (r.tok["fake"] if e.get("fake") else r.tok["root"]) + render_segs(e["q"], r, in_filter=True)
     if t == "ctx":
-        return "_" + render_segs(e["q"], r, in_filter=True)
+        return r.tok["ctx"] + render_segs(e["q"], r, in_filter=True)
     if t == "key":
-        return "#"
+        return r.tok["key"]
     if t == "func":
         return e["name"] + "(" + r.s() + (r.s() + "," + r.s()).join(render_expr(a, r, 0) for a in e["args"]) + r.s() + ")"
     if t == "nil":
@@ -172,7 +180,15 @@ def render_expr(e, r: R, parent_prec: int) -> str:
 
 
 def render_path(p, r: R) -> str:
-    return ("^" if p.get("fake") else "$") + render_segs(p["segs"], r)
+    return (r.tok["fake"] if p.get("fake") else r.tok["root"]) + render_segs(p["segs"], r)
+
+
+def render_query(q, r: R) -> str:
+    """{"first": path, "rest": [[op, path], ...]} -> text"""
+    out = render_path(q["first"], r)
+    for op, p in q["rest"]:
+        out += " " + (r.tok["union"] if op == "|" else r.tok["inter"]) + " " + render_path(p, r)
+    return out
 
 
 # ---------------------------------------------------------------- generation
